@@ -107,14 +107,15 @@ PROPS = {
     ),
     "C05": dict(
         title="The parser is total: no panic, no hang, bounded memory",
-        lean_modules=["Gowarc.Props.C05", "Gowarc.Props.C05total"],
+        lean_modules=["Gowarc.Props.C05", "Gowarc.Props.C05total", "Gowarc.Props.C05progress"],
         audit_namespaces=["Gowarc.Props.C05"],
         n_quick=6000, n_thorough=80000,
         required_theorems=["C05_readline_partition", "C05_readline_progress", "C05_http_split", "C05_junk", "C05_junk_consumes",
-                           "C05_parse_total", "C05_cont_total", "C05_no_fuel_marker", "parseLoop_fuel_succ", "contLoop_fuel", "contLoop_rest_le", "readLine_rest_lt"],
+                           "C05_parse_total", "C05_cont_total", "C05_no_fuel_marker", "parseLoop_fuel_succ", "contLoop_fuel", "contLoop_rest_le", "readLine_rest_lt",
+                           "C05_progress", "C05_read_until_error_terminates", "readLoop_fuel_succ", "readAllRecs_complete", "parseFields_rest_le", "afterMagic_rest_le"],
         model_assumptions=["heap growth and wall-clock are only measured (worker watchdog 10 s, address-space cap), not proved", "panics inside klauspost/gzip, net/http, mime, whatwg-url are outside the model", "see level_note"],
         design_ref="DESIGN.md section 5, C05",
-        level_text="All model functions are total Lean functions; the unbounded Go loops of the header parser are modelled with fuel and the fuel is PROVED adequate (C05_parse_total, C05_cont_total: with any larger fuel the result is the same, for every policy, stream and reader fault - so the loops end by themselves within stream length + 2 iterations, each consuming at least one byte); progress and partition lemmas for the line reader, the HTTP head scan and the junk search; "
+        level_text="All model functions are total Lean functions; the unbounded Go loops of the header parser are modelled with fuel and the fuel is PROVED adequate (C05_parse_total, C05_cont_total: with any larger fuel the result is the same, for every policy, stream and reader fault - so the loops end by themselves within stream length + 2 iterations, each consuming at least one byte); progress and partition lemmas for the line reader, the HTTP head scan and the junk search; C05_progress: whenever Unmarshal returns without error the remaining stream is strictly shorter than the one it was given (every policy, option, stream, end condition, validator verdict; gzip: the decoder reports at least one consumed byte), hence C05_read_until_error_terminates / readAllRecs_complete: the file reader's loop ends by itself with an error item (io.EOF or the first real error) and never for lack of fuel; "
                    "the implementation is run on mutated/truncated/hostile records x option combinations x sticky reader faults in isolated worker processes (panic -> outcome, watchdog -> hang, memory cap) and every case is re-run under four chunking styles",
         level_note=COMMON_NOTE,
     ),
